@@ -10,11 +10,13 @@ from vcommon import NCPU, scratch_dir
 LEVEL = "exploration"
 
 U32 = 0xFFFFFFFF
-STATES = [None, 0, 1, 2, 7, U32 - 1, U32]
+STATES = [None, 0, 1, 2, 7, U32 - 1, U32, "U"]     # "U": `ref = x` key - unusable in structured mode, an ordinary unreferenced statement otherwise
 LOCKS = ["absent", "disabled+misleading-lock", "max+1", "max+5", "u32max"]
 
 
 def stmt(state, structured, k):
+    if state == "U":
+        return 'info!(ref = x; "m%d");' % k
     if structured:
         return 'info!(%s"m%d");' % ("ref = %d; " % state if state is not None else "", k)
     return 'info!("%sm%d");' % ("[ref: %d] " % state if state is not None else "", k)
@@ -24,23 +26,32 @@ def file_text(states, structured, fi):
     return "fn f%d() {\n%s}\n" % (fi, "".join("    " + stmt(s, structured, i) + "\n" for i, s in enumerate(states)))
 
 
+def existing_ids(combo):
+    return [s for f in combo for s in f if isinstance(s, int)]
+
+
+def n_missing(combo, structured):
+    return sum(1 for f in combo for s in f if s is None or (s == "U" and not structured))
+
+
 def trees(max_files, max_stmts):
     per_file = [()]
     for n in range(1, max_stmts + 1):
         per_file += list(itertools.product(STATES, repeat=n))
     for nf in range(1, max_files + 1):
         for combo in itertools.product(per_file, repeat=nf):
-            if not any(s is None for f in combo for s in f):
+            if not any(s is None or s == "U" for f in combo for s in f):
                 continue
             yield combo
 
 
 def jobs_for(max_files, max_stmts):
     for combo in trees(max_files, max_stmts):
-        existing = [s for f in combo for s in f if s is not None]
+        existing = existing_ids(combo)
         mx = max(existing) if existing else 0
-        missing = sum(1 for f in combo for s in f if s is None)
         for structured in (False, True):
+            if n_missing(combo, structured) == 0:
+                continue
             for lock in LOCKS:
                 if lock == "max+1":
                     if mx >= U32:
@@ -68,7 +79,7 @@ def count_jobs():
     """Counts matter wherever work is batched or buffered: F files (each: missing, existing odd ID, missing) and S statements in one
     file, for every count around small numbers and powers of two."""
     for F in COUNTS:
-        combo = tuple((None, 2 * i + 1, None) for i in range(F))
+        combo = tuple((None, 2 * i + 1, "U", None) if i % 3 == 1 else (None, 2 * i + 1, None) for i in range(F))
         yield combo
     for S in COUNTS:
         combo = (tuple(None for _ in range(S)), (7, None), tuple([None, 3] * 2))
@@ -111,7 +122,7 @@ def run(tier, v):
         alljobs += [j for j in jobs_for(2, 3) if max(len(f) for f in j[0]) == 3]
     ncount = 0
     for combo in count_jobs():
-        existing = [x for f in combo for x in f if x is not None]
+        existing = existing_ids(combo)
         mx = max(existing)
         for structured in (False, True):
             for lock, lv in (("absent", None), ("disabled+misleading-lock", 1), ("max+1", mx + 1), ("max+5", mx + 5)):
@@ -125,9 +136,9 @@ def run(tier, v):
         for res in pool.imap_unordered(_run_batch, batches):
             for combo, structured, lock, lv, ex, sig, to, panicked, new_ids, bad_strip, lock_after, err in res:
                 v.count()
-                existing = [s for f in combo for s in f if s is not None]
+                existing = existing_ids(combo)
                 mx = max(existing) if existing else 0
-                missing = sum(1 for f in combo for s in f if s is None)
+                missing = n_missing(combo, structured)
                 start = lv if lock in ("max+1", "max+5", "u32max") else (mx + 1 if existing else 1)
                 must_fail = start + missing - 1 > U32
                 v.distinct((hash(combo), structured, lock))
@@ -156,7 +167,7 @@ def run(tier, v):
                                                   **{"proj/Breadlog.yaml": cli.config_yaml("./src", structured=structured, use_cache=(False if lock.startswith("disabled") else None))},
                                                   **({"proj/Breadlog.lock": cli.lock_yaml(lv)} if lv is not None else {})),
                                 replay_cmd="W=$(mktemp -d); cp -r proj $W/; /verif/.build/repo/release/breadlog -c $W/proj/Breadlog.yaml; echo exit=$?; cat $W/proj/src/*.rs")
-    v.subspace("all trees with <= %d files x <= %d statements per file over reference states {none,0,1,2,7,2^32-2,2^32-1} with >= 1 missing, x style x "
+    v.subspace("all trees with <= %d files x <= %d statements per file over reference states {none,0,1,2,7,2^32-2,2^32-1,unusable `ref = x`} with >= 1 missing, x style x "
                "lock {absent, disabled with misleading lock, max+1, max+5, 2^32-1}%s" % (mf, ms, "; plus 2 files x 3 statements" if tier == "thorough" else ""),
                len(alljobs), exhaustive=True)
     v.subspace("count sweep: F files / S statements per file for every count in %r x style x lock" % COUNTS, ncount, exhaustive=True)
